@@ -1333,6 +1333,7 @@ class ScalarResult(FilterResult[_R]):
 
         self._unique_filter_state = real_result._unique_filter_state
 
+    @_generative
     def unique(self, strategy: Optional[_UniqueFilterType] = None) -> Self:
         """Apply unique filtering to the objects returned by this
         :class:`_engine.ScalarResult`.
@@ -1615,6 +1616,7 @@ class MappingResult(_WithKeys, FilterResult[RowMapping]):
         if result._source_supports_scalars:
             self._metadata = self._metadata._reduce([0])
 
+    @_generative
     def unique(self, strategy: Optional[_UniqueFilterType] = None) -> Self:
         """Apply unique filtering to the objects returned by this
         :class:`_engine.MappingResult`.
